@@ -526,6 +526,26 @@ func run(r *hx.Run) error {
 		}
 		r.Count("scenario-lp-semicolon")
 	}
+	// F112d (known finding): graphemes that are separate clusters on their own but ONE cluster when
+	// written next to each other (regional indicators, Hangul jamo L + V, emoji + ZWJ emoji)
+	for i, pair := range [][2]string{{"\U0001F1E9", "\U0001F1EA"}, {"\u1100", "\u1161"}, {"\U0001F469", "\u200d\U0001F680"}} {
+		s, err := newSession(r, rng, fmt.Sprintf("merge-%d", i), 6, 1, false, false, false, false, true)
+		if err != nil {
+			return err
+		}
+		r.Emit(fmt.Sprintf("dict %s:%d %s:%d", hx.Hex(pair[0]), s.vx.RenderedWidth(pair[0]), hx.Hex(pair[1]), s.vx.RenderedWidth(pair[1])), "-")
+		win := s.vx.Window()
+		w0 := s.vx.RenderedWidth(pair[0])
+		if w0 < 1 {
+			w0 = 1
+		}
+		win.SetCell(0, 0, ch(pair[0]))
+		win.SetCell(w0, 0, ch(pair[1]))
+		win.SetCell(5, 0, ch("z"))
+		s.render(false)
+		s.close()
+		r.Count("scenario-merge")
+	}
 	// F112c: a shell left a coloured line on the primary screen; the application (alternate screen)
 	// draws, the host resizes the emulator, the application redraws
 	{
